@@ -1,6 +1,8 @@
 // Package base32 implements utilities for encoding and decoding text using I2P's alphabet
 package base32
 
+import b32 "encoding/base32"
+
 // EncodeToString encodes binary data to a base32 string using I2P's encoding alphabet.
 // It converts arbitrary byte data into a human-readable base32 string representation
 // using the I2P-specific lowercase alphabet defined in RFC 3548.
@@ -18,7 +20,7 @@ func EncodeToString(data []byte) string {
 func DecodeString(data string) ([]byte, error) {
 	// Parse I2P-specific base32 string with error handling
 	// Validates input characters against I2P alphabet before decoding
-	return I2PEncoding.DecodeString(data)
+	return decodeStrict(I2PEncoding, data)
 }
 
 // EncodeToStringNoPadding encodes binary data to an unpadded base32 string using I2P's encoding alphabet.
@@ -32,7 +34,7 @@ func EncodeToStringNoPadding(data []byte) string {
 // This accepts the standard I2P .b32.i2p address format (52 unpadded characters
 // for a 32-byte hash).
 func DecodeStringNoPadding(data string) ([]byte, error) {
-	return I2PEncodingNoPadding.DecodeString(data)
+	return decodeStrict(I2PEncodingNoPadding, data)
 }
 
 // EncodeToStringSafe encodes binary data to a base32 string with input validation.
@@ -63,7 +65,7 @@ func DecodeStringSafe(data string) ([]byte, error) {
 	if len(data) > MAX_DECODE_SIZE {
 		return nil, ErrInputTooLarge
 	}
-	return I2PEncoding.DecodeString(data)
+	return decodeStrict(I2PEncoding, data)
 }
 
 // DecodeStringSafeNoPadding decodes an unpadded base32 string with input validation.
@@ -76,5 +78,27 @@ func DecodeStringSafeNoPadding(data string) ([]byte, error) {
 	if len(data) > MAX_DECODE_SIZE {
 		return nil, ErrInputTooLarge
 	}
-	return I2PEncodingNoPadding.DecodeString(data)
+	return decodeStrict(I2PEncodingNoPadding, data)
+}
+
+// decodeStrict decodes data with enc and additionally rejects input that encoding/base32
+// tolerates although it is not a complete encoding: anything following the final padded
+// quantum (including characters outside the alphabet), the byte 0xFF which the standard
+// decoder treats as padding when NoPadding is configured, and dangling characters of an
+// unpadded final group. CR and LF are ignored as in the standard decoder.
+func decodeStrict(enc *b32.Encoding, data string) ([]byte, error) {
+	out, err := enc.DecodeString(data)
+	if err != nil {
+		return out, err
+	}
+	significant := 0
+	for i := 0; i < len(data); i++ {
+		if data[i] != '\r' && data[i] != '\n' {
+			significant++
+		}
+	}
+	if significant != enc.EncodedLen(len(out)) {
+		return nil, b32.CorruptInputError(len(data))
+	}
+	return out, nil
 }
